@@ -973,7 +973,19 @@ mod pipeline {
                 if idx != cnt - 1 {
                     runner = runner.stdout(Redirection::Pipe);
                 }
-                ret.push(runner.popen()?);
+                match runner.popen() {
+                    Ok(p) => ret.push(p),
+                    Err(e) => {
+                        // The commands started so far are waited for when
+                        // `ret` is dropped.  Close the pipeline's stdin first,
+                        // otherwise the first command never sees EOF and the
+                        // wait never returns.
+                        if let Some(first) = ret.first_mut() {
+                            first.stdin.take();
+                        }
+                        return Err(e);
+                    }
+                }
             }
             Ok(ret)
         }
